@@ -80,6 +80,21 @@ def to_smt2(fmls, logic="ALL"):
 def check(axioms, pc, goal, want_model=True, timeout_ms=None):
     """-> (verdict, model_or_None, seconds, backend)   verdict in discharged/refuted/unknown"""
     t0 = time.time()
+    if len(pc) > 40 and not os.environ.get("PYVC_NO_RELEVANCE"):
+        # first try with the hypotheses in the cone of influence of the goal only (sound: fewer hypotheses)
+        for rounds in (1, 2):
+            sub = relevant_subset(pc, goal, rounds=rounds)
+            if len(sub) >= len(pc):
+                break
+            s = z3.Solver()
+            s.set("timeout", min(3000, timeout_ms or Z3_TIMEOUT_MS))
+            for a in axioms:
+                s.add(a)
+            for c in sub:
+                s.add(c)
+            s.add(z3.Not(goal))
+            if s.check() == z3.unsat:
+                return "discharged", None, time.time() - t0, "z3-%s(relevant %d/%d)" % (z3.get_version_string(), len(sub), len(pc))
     s = z3.Solver()
     s.set("timeout", timeout_ms or Z3_TIMEOUT_MS)
     for a in axioms:
@@ -172,3 +187,53 @@ def model_summary(model, terms):
         except Exception:
             pass
     return out
+
+
+# --------------------------------------------------------------------------- relevance filtering
+_UBIQ = {"cls_of", "subclass", "birth", "null", "truthy", "the_loop", "me"}
+
+
+def symbols_of(t, cache):
+    """uninterpreted constants / functions (incl. heap arrays) occurring in t"""
+    key = t.get_id()
+    if key in cache:
+        return cache[key]
+    out = set()
+    stack = [t]
+    seen = set()
+    while stack:
+        x = stack.pop()
+        i = x.get_id()
+        if i in seen:
+            continue
+        seen.add(i)
+        if z3.is_quantifier(x):
+            stack.append(x.body())
+            continue
+        if z3.is_app(x):
+            d = x.decl()
+            if d.kind() == z3.Z3_OP_UNINTERPRETED:
+                n = d.name()
+                if n not in _UBIQ and not n.startswith("cls!") and not n.startswith("str!"):
+                    out.add(n)
+            stack.extend(x.children())
+    cache[key] = out
+    return out
+
+
+def relevant_subset(pc, goal, rounds=3):
+    cache = {}
+    syms = set(symbols_of(goal, cache))
+    chosen = [False] * len(pc)
+    psyms = [symbols_of(c, cache) for c in pc]
+    for _ in range(rounds):
+        grew = False
+        for i, ps in enumerate(psyms):
+            if not chosen[i] and (not ps or ps & syms):
+                chosen[i] = True
+                if not ps <= syms:
+                    syms |= ps
+                    grew = True
+        if not grew:
+            break
+    return [c for c, ch in zip(pc, chosen) if ch]
